@@ -86,7 +86,9 @@ def equal_unordered(a, b):
 
 def str_ok(s):
     """the property's string domain"""
-    return len(s) > 0 and not s.endswith("@") and s not in RESERVED and all(ord(c) < 256 for c in s)
+    # since fix 45f23bb (marker entries 0..2 of the dictionary are never written as string tokens) every byte-range string is in
+    # the domain: the empty string, the reserved words and JID forms with empty parts included
+    return all(ord(c) < 256 for c in s)
 
 
 def wf(t, top=True):
@@ -134,7 +136,10 @@ class Gen(object):
 
     def string(self, kind=None):
         r = self.r
-        kind = kind or r.choice(["token", "token", "digits", "nibble", "hex", "text", "text", "jid", "latin1", "harvest", "mixed"])
+        kind = kind or r.choice(["token", "token", "digits", "nibble", "hex", "text", "text", "jid", "latin1", "harvest", "mixed", "edge"])
+        if kind == "edge":
+            w = r.choice(RESERVED)
+            return r.choice(["", "@", "@@", "a@", "@a", "a@@b", w, w + "@s.whatsapp.net", "1234@" + w, "a@" + w + "@b", w + "@", "@" + w, w + "@" + w])
         if kind == "token":
             return r.choice(self.tokens)
         if kind == "digits":
